@@ -251,7 +251,7 @@ def self_test():
 
 
 LAWS = [
-    machine_law("history_fake", make_machine(0), replay_history, {"quick": 40, "thorough": 120}, {"quick": 9, "thorough": 12}, shards={"quick": 2, "thorough": 12}),
-    machine_law("history_real", make_machine(60), replay_history, {"quick": 6, "thorough": 40}, {"quick": 7, "thorough": 9}, shards={"quick": 3, "thorough": 4}),
+    machine_law("history_fake", make_machine(0), replay_history, {"quick": 50, "thorough": 300}, {"quick": 9, "thorough": 14}, shards={"quick": 4, "thorough": 16}),
+    machine_law("history_real", make_machine(60), replay_history, {"quick": 8, "thorough": 60}, {"quick": 7, "thorough": 10}, shards={"quick": 4, "thorough": 8}),
     plain_law("all_task_orders", order_cases, order_body, shards={"quick": 4, "thorough": 16}),
 ]
